@@ -38,6 +38,8 @@ class C04(Property):
             return gen_coupling.gen_ring(rnd, pull_prob=0.0, meta_cycle=True)
         if i % 12 == 3:
             return gen_coupling.gen_dpull_ring(rnd)
+        if i % 12 == 9:
+            return gen_coupling.gen_holdnd_ring(rnd)
         return gen_coupling.gen_ring(rnd)
 
     def run(self, spec):
@@ -81,7 +83,7 @@ class C04(Property):
         return out
 
     def coverage_gaps(self, counters, tier):
-        need = ["class_none", "class_sufficient", "class_between", "class_acyclic", "class_meta_cycle", "class_dpull_ring", "circular_reported", "completed_clean",
+        need = ["class_none", "class_sufficient", "class_between", "class_acyclic", "class_meta_cycle", "class_dpull_ring", "class_holdnd_ring", "circular_reported", "completed_clean",
                 "rings_with_pull_based_components"]
         return [f"{k} never observed" for k in need if not counters.get(k)]
 
